@@ -574,10 +574,10 @@ def selftest_determinism(cfg, seed, cmds, seeds=4):
 
 def check_c08(tier, seed):
     t0 = time.time()
-    names = ["sse2-rel", "sse2-dbg", "coresimd"] + (["native"] if tier == "thorough" else [])
+    names = ["sse2-rel", "sse2-dbg", "coresimd", "native"]
     cfgs, skipped = available_configs(names)
     skipped.append(("scalar", "the padding lane does not exist under scalar-math (the property says so)"))
-    runs = {"quick": {"sse2-rel": 300000, "sse2-dbg": 40000, "coresimd": 300000, "native": 0},
+    runs = {"quick": {"sse2-rel": 300000, "sse2-dbg": 40000, "coresimd": 300000, "native": 150000},
             "thorough": {"sse2-rel": 6000000, "sse2-dbg": 500000, "coresimd": 6000000, "native": 6000000}}[tier]
     build_all(cfgs)
     det = selftest_determinism("sse2-rel", seed, [["c08", "--runs", 2000]], seeds=4 if tier == "quick" else 32)
@@ -640,7 +640,7 @@ def check_c17(tier, seed):
     t0 = time.time()
     cfgs, skipped = available_configs(["sse2-rel", "scalar", "coresimd"] + (["sse2-dbg", "native"] if tier == "thorough" else []))
     build_all(cfgs)
-    hist = {"quick": 1500, "thorough": 120000}[tier]
+    hist = {"quick": 1500, "thorough": 40000}[tier]
     det = selftest_determinism("sse2-rel", seed, [["c17", "--histories", 60]], seeds=2 if tier == "quick" else 16)
     results, results_ff = [], []
     for c in cfgs:
@@ -864,8 +864,7 @@ def main():
     a = ap.parse_args()
     try:
         if a.setup:
-            for c in available_configs(["sse2-rel", "sse2-dbg", "scalar", "coresimd"])[0]:
-                build(c)
+            build_all(available_configs(["sse2-rel", "sse2-dbg", "scalar", "coresimd", "native"])[0])
             return 0
         if a.replay:
             rep, res = replay_file(a.replay)
